@@ -17,7 +17,9 @@ the model follows it and the positive statements are theorems:
   after the start tag, or after any number of complete children, at any depth, with any part of the whitespace that
   follows) is rejected; `C08_trailing_ws_harmless`: cuts inside the whitespace after the root's end tag are harmless.
   Cut points inside a token are covered by the correspondence (every character of every generated body), not by a theorem.
-* string-level `C08_second_root_rejected`, `C08_stray_end_rejected`, `C08_text_after_root_rejected`.
+* string-level `C08_second_root_rejected`, `C08_stray_end_rejected`, `C08_text_after_root_rejected`,
+  `C08_text_after_cdata_rejected` (since /repo's `fix: white space may follow a CDATA section` the white space after
+  `]]>` belongs to the match and is no tail; text that is not white space after it still is the tail, and is refused).
 
 What remains outside: characters the regex does not match are skipped by `finditer` before any of this applies (known
 findings `unmatched-markup-skipped`, `text-before-root-skipped`): `Balanced` speaks about the token list.
@@ -906,6 +908,29 @@ theorem C08_text_after_root_rejected (tg : Str) (cs : List Tree) (s x : Str) (c 
           (Or.inr (Or.inr (startsEnd_endTag tg _ ht))) hlast,
         hend]
 
+/-- **text after a CDATA section**: `<t><![CDATA[d]]>`, any white space, then text that is not white space — wherever
+    it stands (any builder state), whatever markup follows — raises `ParseError`: the white space is passed over by
+    `\s*`, the text is the match's `tail` -/
+theorem C08_text_after_cdata_rejected (t d w x rest : Str) (c : Char) (st : St) (ht : tagOk t = true)
+    (hd : dataOk d = true) (hcd : cdataOk d = true) (hw : ws w = true) (hc : isSpace c = false)
+    (hx : ∀ a ∈ c :: x, notLt a = true) (hrest : Stops notLt rest) :
+    run (startTag t ++ (cdataOf d ++ (w ++ (c :: x ++ rest)))) st = .error .parse := by
+  obtain ⟨hdne, -, -⟩ := dataOk_parts hd
+  obtain ⟨htne, htc⟩ := tagChars ht
+  have hm := matchHere_cdata_tail t d w x rest c htne htc hdne (cdataOk_notNl hcd) ((ws_iff w).mp hw) hc hx hrest
+    (cdataOk_noClose hcd)
+  refine run_first_error _ _ st _ (by simp [startTag]) hm ?_
+  unfold step
+  have : truthy (groom (some (c :: x))) = true := groom_nonblank (c :: x) c (by simp) hc
+  simp [this]
+
+/-- … in particular as a whole body -/
+theorem C08_text_after_cdata_rejected_doc (t d w x rest : Str) (c : Char) (ht : tagOk t = true)
+    (hd : dataOk d = true) (hcd : cdataOk d = true) (hw : ws w = true) (hc : isSpace c = false)
+    (hx : ∀ a ∈ c :: x, notLt a = true) (hrest : Stops notLt rest) :
+    parse (startTag t ++ (cdataOf d ++ (w ++ (c :: x ++ rest)))) = .error .parse := by
+  rw [parse_eq, C08_text_after_cdata_rejected t d w x rest c St.init ht hd hcd hw hc hx hrest]
+
 end strings
 
 /-! ### the hypotheses are met by concrete bodies -/
@@ -933,6 +958,20 @@ example : parse "<A><B>1<C>".toList = .error .parse := by
     (RendersList.cons _ _ _ [] _ (Renders.leafOpen ['B'] ['1'] [] (by decide) (by decide) (by decide)) (by decide)
       RendersList.nil)
     (OpenPrefix.here ['C'] [] [] [] (by decide) (by decide) RendersList.nil))
+
+/-- the hypotheses of `C08_text_after_cdata_rejected_doc` are met: `<B><![CDATA[x]]> junk</B>` -/
+example : parse "<B><![CDATA[x]]> junk</B>".toList = .error .parse := by
+  have e : "<B><![CDATA[x]]> junk</B>".toList = startTag ['B'] ++ (cdataOf ['x'] ++ ([' '] ++ ('j' :: "unk".toList ++ "</B>".toList))) := by
+    decide
+  rw [e]
+  exact C08_text_after_cdata_rejected_doc ['B'] ['x'] [' '] _ _ 'j' (by decide) (by decide) (by decide) (by decide) (by decide)
+    (by decide) (stops_cons _ (by decide))
+
+/-- white space between `]]>` and the end tag (C02's former guard G2) is well nested; text there is not -/
+example : balanced (toks "<A><B><![CDATA[x]]> </B></A>".toList) = true := by decide
+example : balanced (toks "<A><B><![CDATA[x]]>\n<C>1\n</A>".toList) = true := by decide
+example : balanced (toks "<A><B><![CDATA[x]]> junk</A>".toList) = false := by decide
+example : parse "<A><B><![CDATA[x]]> junk</A>".toList = .error .parse := by rfl
 
 /-- the witnesses of the repaired findings are now rejected -/
 example : parse "<A><B>1".toList = .error .parse := by rfl
